@@ -34,8 +34,9 @@ Proof. destruct a, b; simpl; intros H; try discriminate; auto. apply Nat.eqb_eq 
 
 Lemma cmd_eqb_eq a b : cmd_eqb a b = true -> a = b.
 Proof.
-  destruct a as [c1 p1 m1 d1], b as [c2 p2 m2 d2]; unfold cmd_eqb; simpl; intros H.
+  destruct a as [c1 p1 m1 d1 o1], b as [c2 p2 m2 d2 o2]; unfold cmd_eqb; simpl; intros H.
   repeat match goal with H : _ && _ = true |- _ => apply andb_prop in H as [? ?] end.
+  match goal with H : list_eqb Z.eqb o1 o2 = true |- _ => apply (list_eqb_eq Z.eqb) in H; [|intros; apply Z.eqb_eq; assumption] end.
   match goal with H : Nat.eqb c1 c2 = true |- _ => apply Nat.eqb_eq in H end.
   match goal with H : Bool.eqb d1 d2 = true |- _ => apply eqb_prop in H end.
   repeat match goal with H : Nat.eqb (length _) (length _) = true |- _ => apply Nat.eqb_eq in H end.
@@ -47,7 +48,7 @@ Qed.
 Lemma cmd_eqb_refl a : cmd_eqb a a = true.
 Proof.
   unfold cmd_eqb. rewrite !Nat.eqb_refl, eqb_reflx.
-  rewrite (zip_all_refl Z.eqb Z.eqb_refl), (zip_all_refl Nat.eqb Nat.eqb_refl). reflexivity.
+  rewrite (zip_all_refl Z.eqb Z.eqb_refl), (zip_all_refl Nat.eqb Nat.eqb_refl), (list_eqb_refl Z.eqb Z.eqb_refl). reflexivity.
 Qed.
 
 (* soundness: reported equal => identical target, register and circuit: every command, its
@@ -85,11 +86,19 @@ Qed.
 
 (* The pre-fix comparison is unsound: a one-command program equals its empty prefix, and a gate
    equals its own inverse. *)
-Definition g := mkCmd 1 [5%Z] [0] false.
-Definition gH := mkCmd 1 [5%Z] [0] true.
+Definition g := mkCmd 1 [5%Z] [0] false [].
+Definition gH := mkCmd 1 [5%Z] [0] true [].
 Theorem prog_eq_old_refuted :
   exists p q, prog_eq_old p q = true /\ circuit p <> circuit q /\ length (circuit p) <> length (circuit q).
 Proof. exists (mkProg None [(0,true)] [g]), (mkProg None [(0,true)] []). repeat split; simpl; try discriminate; auto. Qed.
 Theorem prog_eq_old_refuted_dagger :
   exists p q, prog_eq_old p q = true /\ length (circuit p) = length (circuit q) /\ circuit p <> circuit q.
 Proof. exists (mkProg None [(0,true)] [g]), (mkProg None [(0,true)] [gH]). repeat split; simpl; try discriminate; auto. Qed.
+
+(* before fix 19a0026 two measurements with different post-selection values were reported equal *)
+Theorem prog_eq_noopts_refuted :
+  exists p q, prog_eq_noopts p q = true /\ p <> q /\ prog_eq p q = false.
+Proof.
+  exists (mkProg None [(0,true)] [mkCmd 7 [0%Z] [0] false [1%Z]]), (mkProg None [(0,true)] [mkCmd 7 [0%Z] [0] false [2%Z]]).
+  repeat split; simpl; try discriminate; auto.
+Qed.
